@@ -489,6 +489,14 @@ def gen_cases(ctx, E):
             if form in (1, 3, 5, 6):
                 c.cls += " argform=%s" % {1: "np.int64", 3: "str", 5: "float", 6: "Path"}[form]
         cases.append(c)
+    # thermal-CX (CHEXC) blocks at both ends of the charge range: the hydrogen-like ion (receiver = bare nucleus, charge Z) and the
+    # neutral (receiver charge 1), for several elements -- the install path re-keys them to receiver charge + 1
+    light = [e for e in W.ELEMENTS if 2 <= e[1] <= 18]
+    for elname, z in rng.sample(light, 3 if q else 6):
+        t = W.gen_adf15(rng, "hydrogen-like", nblocks=rng.choice([1, 2]), nd=rng.choice([1, 2]), nt=rng.choice([2, 3]), force_type="CHEXC")
+        cases.append(mk_adf15(t, "hydrogen-like %s+%d with CHEXC (receiver = bare nucleus)" % (elname, z - 1), elname, z - 1))
+        t = W.gen_adf15(rng, "full", nblocks=rng.choice([1, 2]), nd=rng.choice([1, 2]), nt=rng.choice([2, 3]), force_type="CHEXC")
+        cases.append(mk_adf15(t, "neutral %s with CHEXC (receiver charge 1)" % elname, elname, 0))
     # isotopes: deuterium is not `hydrogen`, so without header_format the hydrogen index layout is not tried (recorded rejection:
     # RuntimeError); with header_format='hydrogen' the file is read
     for hf in (None, "hydrogen"):
@@ -563,6 +571,16 @@ def run_impl(ctx, c, E, parse, workdir):
     return str(path)
 
 
+def _call(fails, what, f, *args, **kw):
+    """run an install / accessor call; an exception is an OUTCOME (recorded in `fails`, compared with what the model says is
+    there), never the end of the run"""
+    try:
+        return True, f(*args, **kw)
+    except Exception as exc:
+        fails.append("%s raised %r" % (what, exc))
+        return False, None
+
+
 def roundtrip(ctx, c, E, path, workdir):
     """install_adf*(file) into a fresh repository, read back with the repository's get_* and compare with the
     parser's tables (exactly: the repository stores doubles as JSON).  Returns a list of failure strings."""
@@ -573,20 +591,26 @@ def roundtrip(ctx, c, E, path, workdir):
     H, C, q6, tr32 = arg_forms(c, E)
     fails = []
     kw = dict(download=False, repository_path=repo, adas_path=workdir)
-    if c.kind == "adf21":
-        install.install_adf21(H, C, q6, c.fname, **kw)
-        back = tbl_adf2x(repository.get_beam_stopping_rate(H, C, 6, repo))
-    elif c.kind == "adf22bmp":
-        install.install_adf22bmp(H, 2, C, q6, c.fname, **kw)
-        back = tbl_adf2x(repository.get_beam_population_rate(H, 2, C, 6, repo))
-    elif c.kind == "adf22bme":
-        install.install_adf22bme(H, C, q6, tr32, c.fname, **kw)
-        back = tbl_adf2x(repository.get_beam_emission_rate(H, C, 6, (3, 2), repo))
+    back = None
+    if c.kind in ("adf21", "adf22bmp", "adf22bme"):
+        inst, iargs, get, gargs = {
+            "adf21": (install.install_adf21, (H, C, q6), repository.get_beam_stopping_rate, (H, C, 6)),
+            "adf22bmp": (install.install_adf22bmp, (H, 2, C, q6), repository.get_beam_population_rate, (H, 2, C, 6)),
+            "adf22bme": (install.install_adf22bme, (H, C, q6, tr32), repository.get_beam_emission_rate, (H, C, 6, (3, 2)))}[c.kind]
+        ok, _ = _call(fails, "install_%s%r of a file the parser accepts" % (c.kind, tuple(str(a) for a in iargs)), inst, *iargs, c.fname, **kw)
+        if ok:
+            ok, r = _call(fails, "%s%r after the install (expected: the table parsed from the file)" % (get.__name__, tuple(str(a) for a in gargs)),
+                          get, *gargs, repo)
+            if ok:
+                back = tbl_adf2x(r)
     elif c.kind == "adf12":
-        install.install_adf12(H, 1, C, 6, c.fname, **kw)
+        ok, _ = _call(fails, "install_adf12(%s, 1, C, 6) of a file the parser accepts" % H.symbol, install.install_adf12, H, 1, C, 6, c.fname, **kw)
         d = {}
-        for keys, _, _ in c.impl:
-            got = repository.get_beam_cx_rates(H, C, 6, keys, repo)
+        for keys, _, _ in (c.impl if ok else []):
+            ok2, got = _call(fails, "get_beam_cx_rates(%s, C, 6, transition %s) after the install (expected: the block parsed from the file)" % (H.symbol, keys),
+                             repository.get_beam_cx_rates, H, C, 6, keys, repo)
+            if not ok2:
+                continue
             metas = got if isinstance(got, dict) else dict(got)
             if sorted(int(k) for k in metas.keys()) != [1]:
                 fails.append("beam CX rates of %s stored under metastables %s, installed metastable 1" % (keys, list(metas.keys())))
@@ -595,20 +619,29 @@ def roundtrip(ctx, c, E, path, workdir):
         # the repository's beam-CX table has no slot for the reference abscissae (ebref ... bref): compared without them
         back = tbl_adf12(d, refs=("qref",))
         parsed = [(k, sh, vals[:-1] + [vals[-1][-1:]]) for k, sh, vals in c.impl]
-        diff = tables_exact(parsed, back)
+        diff = tables_exact(parsed, back) if ok else None
         if diff:
             fails.append("install + read back differs from the parsed tables: " + diff)
         return fails, back
     elif c.kind == "adf15":
         el = getattr(E, c.element)
-        install.install_adf15(el, getattr(c, "charge_arg", c.charge), c.fname, header_format=c.header_format, **kw)
+        ok, _ = _call(fails, "install_adf15(%s, %r) of a file the parser accepts" % (el.symbol, getattr(c, "charge_arg", c.charge)),
+                      install.install_adf15, el, getattr(c, "charge_arg", c.charge), c.fname, header_format=c.header_format, **kw)
         back = []
-        for keys, shape, vals in c.impl:
+        for keys, shape, vals in (c.impl if ok else []):
             tr = tuple(keys[1:])
             if keys[0] == "wavelength":
-                back.append((keys, [], [[float(repository.get_wavelength(el, c.charge, tr, repo))]]))
+                ok2, w = _call(fails, "get_wavelength(%s, %d, %s) after install_adf15 (expected %r from the file's index)" % (el.symbol, c.charge, tr, vals[0][0]),
+                               repository.get_wavelength, el, c.charge, tr, repo)
+                if ok2:
+                    back.append((keys, [], [[float(w)]]))
             elif keys[0] == "thermalcx":
-                r = repository.get_pec_thermal_cx_rate(E.hydrogen, 0, el, c.charge + 1, tr, repo)
+                ok2, r = _call(fails, "get_pec_thermal_cx_rate(donor H 0, receiver %s charge %d, transition %s) after install_adf15(%s, %d) of a file with "
+                                      "a CHEXC block for that transition (expected: the %dx%d table of the block, on two donor temperatures)"
+                               % (el.symbol, c.charge + 1, tr, el.symbol, c.charge, shape[0], shape[1]),
+                               repository.get_pec_thermal_cx_rate, E.hydrogen, 0, el, c.charge + 1, tr, repo)
+                if not ok2:
+                    continue
                 rate = np.asarray(r["rate"])
                 td = np.asarray(r["td"])
                 if rate.ndim != 3 or rate.shape[2] != len(td) or not np.array_equal(rate[:, :, 0], rate[:, :, -1]):
@@ -619,14 +652,17 @@ def roundtrip(ctx, c, E, path, workdir):
                                                         [flat(r["ne"]), flat(r["te"]), flat(td), flat(rate)])]
             else:
                 get = repository.get_pec_excitation_rate if keys[0] == "excitation" else repository.get_pec_recombination_rate
-                r = get(el, c.charge, tr, repo)
-                rate = np.asarray(r["rate"])
-                back.append((keys, list(rate.shape), [flat(r["ne"]), flat(r["te"]), flat(rate)]))
+                ok2, r = _call(fails, "%s(%s, %d, %s) after install_adf15 (expected: the %s block of the file)" % (get.__name__, el.symbol, c.charge, tr, keys[0]),
+                               get, el, c.charge, tr, repo)
+                if ok2:
+                    rate = np.asarray(r["rate"])
+                    back.append((keys, list(rate.shape), [flat(r["ne"]), flat(r["te"]), flat(rate)]))
     else:
         return fails, None
-    diff = tables_exact(c.impl, back)
-    if diff:
-        fails.append("install + read back differs from the parsed tables: " + diff)
+    if back is not None and not fails:
+        diff = tables_exact(c.impl, back)
+        if diff:
+            fails.append("install + read back differs from the parsed tables: " + diff)
     if os.path.exists(home_repo):
         fails.append("install wrote outside the repository path given (%s exists)" % home_repo)
         shutil.rmtree(home_repo, ignore_errors=True)
@@ -1023,7 +1059,10 @@ def run(ctx):
         # install + read back
         if c.kind == "adf11":
             if getattr(c, "install", None):
-                fails, powt, backt = roundtrip_adf11(ctx, c, E, workdir)
+                try:
+                    fails, powt, backt = roundtrip_adf11(ctx, c, E, workdir)
+                except Exception as exc:      # an exception of install_adf11* / get_* on a file the parser accepts is the failing input
+                    fails, powt, backt = ["install_adf11%s / read back raised %r" % (c.install, exc)], [], []
                 n_roundtrip += 1
                 c.extra.append(("install_adf11%s + read back = 10**model with units, under the %s charge convention" % (c.install, c.install),
                                 "check_adf11_install %s (MODEL) %s %s" % (ADF11_GET[c.install][2], raw_tbl_lit(powt), raw_tbl_lit(backt))))
@@ -1031,9 +1070,12 @@ def run(ctx):
                     search_fails.append((c, None, "installing the file and reading it back yields the same tables", f))
         else:
             c.back3d = []
-            fails, _ = roundtrip(ctx, c, E, path, workdir)
+            try:
+                fails, _ = roundtrip(ctx, c, E, path, workdir)
+            except Exception as exc:          # safety net: no accessor failure may end the run
+                fails = ["install / read back raised %r" % (exc,)]
             n_roundtrip += 1
-            if c.back3d:
+            if c.back3d or (c.kind == "adf15" and any(k[0] == "thermalcx" for k, _, _ in c.impl)):
                 c.extra.append(("thermal-CX blocks read back from the repository (3-D, two donor temperatures) = model",
                                 "check_thermalcx %d (MODEL) %s" % (c.charge, raw_tbl_lit(c.back3d))))
             for f in fails:
